@@ -120,7 +120,19 @@ class C07(F.PropCheck):
         n = rng.choice([4, 6, 8]); gp = rng.sample(GPIOS, n); cd = consts()['CHFLAG_COUNTDOWN']
         rel = [(gp[i], i, rng.choice([0, 0, 16, 2]), cd if rng.random() < 0.5 else 0) for i in range(n)]
         evs = [cfg_event(1, 1, 0, False, rel, [0] * 8, rng.choice([[], [0, 10000], [20000]]))]
-        kind = rng.choice(['together', 'storm', 'stagger'])
+        kind = rng.choice(['together', 'storm', 'stagger', 'alive'])
+        if kind == 'alive':
+            # 5..8 plain relays (no countdown capability), 5..n "on for d" alive at the same time, in any order, then past all deadlines
+            n = rng.choice([5, 6, 7, 8]); gp = rng.sample(GPIOS, n)
+            rel = [(gp[i], i, rng.choice([0, 0, 16]), 0) for i in range(n)]
+            evs = [cfg_event(1, 1, 0, False, rel, [0] * 8, rng.choice([[], [], [0, 10000]]))]
+            for rnd in range(rng.choice([1, 1, 2])):
+                order = rng.sample(range(n), rng.randrange(5, n + 1)); dmax = 0
+                for i in order:
+                    d = rng.randrange(400, 3000); dmax = max(dmax, d)
+                    evs.append(('SET', [i, 1, d, 10 + i], b'')); evs.append(('ADV', [rng.choice([0, 1000, 12000, 30000])], b''))
+                evs.append(('ADV', [dmax * 1000 + rng.choice([400000, 1000000])], b''))
+            return F.Case(cid, evs, ['overlap-alive'])
         if kind == 'together':
             base = rng.choice([120, 301, 480, 777, 2000]); step = rng.choice([10, 10, 9, 11, 0])
             for i in range(n):
@@ -188,6 +200,7 @@ class C07(F.PropCheck):
         busy = []                      # (t_start, t_end) of every relay operation seen (a GPIO edge or a command)
         saved = ([0] * 8, [0] * 8)     # flash image of Relay[], Time2Left[]
         prev = st_of(segs[0]); tprev = 0
+        flags_known = not cfg['lateflags']      # channel_flags filled (board fills them in gpio_init, or FLAGS event since the last boot)
         lastrem = list(prev['rem']); lastt2 = list(prev['t2l'])
         for k, seg in enumerate(segs[1:]):
             if k >= len(evs): break
@@ -196,6 +209,8 @@ class C07(F.PropCheck):
             if e[0] == 'SET' and (e[1][0] & 255) in chidx: target = chidx[e[1][0] & 255]
             if e[0] == 'SW' and e[1][0] in pinidx: target = pinidx[e[1][0]]
             crashed = e[0] == 'CRASH'
+            if crashed: flags_known = not cfg['lateflags']
+            if e[0] == 'FLAGS': flags_known = True
             img = saved
             for o in seg[:-1]:
                 if o[0] == 'SAVED': saved = (o[1][1:9], o[1][9:17])
@@ -241,7 +256,16 @@ class C07(F.PropCheck):
                 if e[0] == 'TIME2' and 0 <= e[1][0] < 8: time2[e[1][0]] = e[1][1]
                 if target is not None:
                     weird[target] = e[0] == 'SET' and e[1][1] not in (0, 1)
-                    pending[target] = (t0, t0, s['rem'][target], s['pin'][target]) if s['rem'][target] > 0 and not weird[target] else None
+                    d_exp = s['rem'][target]
+                    if d_exp == 0 and e[0] == 'SET' and not weird[target]:
+                        # the device shows no timer; does the statement demand one?  "on for d" always arms (staircase: its configured
+                        # time unless the same remaining time is being restored), "off for d" arms on a channel whose countdown
+                        # capability is known
+                        g_, ch_, f_, cf_ = rel[target]; vv, dd = e[1][1], e[1][2]
+                        stair = ch_ < 8 and time2[ch_] > 0
+                        if vv == 1 and (0 < dd < 2**31 or stair): d_exp = max(dd if dd < 2**31 else 0, time2[ch_]) if stair else dd
+                        elif vv == 0 and 0 < dd < 2**31 and not stair and (cf_ & consts()['CHFLAG_COUNTDOWN']) and flags_known: d_exp = dd
+                    pending[target] = (t0, t0, d_exp, s['pin'][target]) if d_exp > 0 and not weird[target] else None
                     lastrem[target] = s['rem'][target]; lastt2[target] = s['t2l'][target]
                 for i in range(nrel):
                     if i == target: continue
@@ -258,7 +282,7 @@ class C07(F.PropCheck):
                         if pd is None: continue
                         tlo, tc, d, lvl = pd
                         # the advance itself must have reached d+100 ms before its last ~relay operations; be exact: the clock at the end of the event
-                        if s['t'] - nrel * OP > tc + d * 1000 + 100000 and s['rem'][i] > 0:
+                        if s['t'] - nrel * OP > tc + d * 1000 + 100000 and s['pin'][i] == lvl:
                             v.append('LATE no switch-back of gpio %d %d us after a command with duration %d ms (clock is beyond d+100 ms)' % (rel[i][0], s['t'] - tc, d))
                             pending[i] = None; weird[i] = True      # reported once; nothing more is checked for this timer
             prev = s
